@@ -44,4 +44,10 @@ partial def lineLoop (h : IO.FS.Stream) (out : IO.FS.Stream) (f : Json → Json)
   | .error e => out.putStrLn (Json.mkObj [("error", Json.str e)]).compress
   lineLoop h out f
 
+def runMain (f : Json → Json) : IO UInt32 := do
+  let i ← IO.getStdin
+  let o ← IO.getStdout
+  lineLoop i o f
+  return 0
+
 end Driver
